@@ -175,6 +175,11 @@ var c07Catalogue = []construct{
 	{Name: "shadowed-builtin-panic", NoHost: true, Decl: "func panic(x bool) bool {\n\treturn x\n}", Broken: "panic", Support: []string{"func zqUse() bool {\n\treturn panic(true)\n}"}},
 	{Name: "shadowed-builtin-uint64", NoHost: true, Decl: "func uint64(x bool) bool {\n\treturn x\n}", Broken: "uint64", Support: []string{"func zqUse() bool {\n\treturn uint64(true)\n}"}},
 	{Name: "shadowed-builtin-append-local", Decl: "func zqShadowAppend() bool {\n\tappend := func(x bool) bool {\n\t\treturn x\n\t}\n\treturn append(true)\n}", Broken: "zqShadowAppend"},
+	// empty declaration groups (a GenDecl without specs)
+	{Name: "empty-type-group", Decl: "type ()", Broken: "?"},
+	{Name: "empty-var-group", Decl: "var ()", Broken: "?"},
+	{Name: "empty-const-group", Decl: "const ()", Broken: "?"},
+	{Name: "empty-type-group-then-unsupported", Decl: "type ()", Broken: "?", Support: []string{"func zqAfterEmpty(x uint64) uint64 {\n\tswitch x {\n\tcase 1:\n\t\treturn 2\n\t}\n\treturn x\n}"}},
 	// every remaining statement / expression node kind of go/ast (one construct per kind)
 	{Name: "empty-statement", Stmt: "var zqx uint64 = 1\n;\n_ = zqx"},
 	{Name: "empty-statement-in-loop-body", Stmt: "var zqx uint64 = 0\nfor zqx < 1 {\n\t;\n\tzqx = zqx + 1\n}"},
